@@ -15,10 +15,14 @@ redundant coordinate at ONE volume, measured by the harness' own projections und
 "refusal" = any exception out of fill_cij / non-zero exit status of `cij fill`.  On acceptance (when no refusal was
 expected): supplied values unchanged to 1e-9*scale for consistent data and within sqrt(residual_atol) for "small";
 every relation of the Laue class (from laue_ref, not from the packaged file) violated by <= sqrt(residual_atol);
-non-modulus columns bit-identical in value, dtype and presence; a modulus column is present iff it exceeds drop_atol
+non-modulus columns bit-identical in value, dtype and presence (rows compared by POSITION whatever the row labels); a modulus column is present iff it exceeds drop_atol
 somewhere (factor-2 guard band); no component occurs twice after lower-casing; the result equals the result of the
 plain presentation (float columns, lower case, given order, V only, empty cwd, packaged relations) to 1e-9*scale.
-With kind == large and ignore_residuals the movement/relation bounds are NOT asserted (they cannot both hold).
+Supplied VANISHING components (part E, lattice dimension z, CLI): all of them as 0 is consistent data (accepted, dropped from
+the result); one of them clearly non-zero is inconsistent beyond tolerance (checked under every reading like "large");
+they never change sufficiency.  The full non-vanishing set + all vanishing ones is the complete 21-column table.
+With inconsistent data (kind == large or a non-zero vanishing component) and ignore_residuals the movement/relation
+bounds are NOT asserted (they cannot both hold).
 Mutation of the frame passed in is not asserted either way (every call gets a fresh copy).
 """
 from __future__ import annotations
@@ -534,7 +538,7 @@ def run_lattice_case(case):
             if bout == "accepted":
                 what = "presentation:" + "+".join(f"{k}-{c[k]}" for k in pres_dev)
                 # an equivalent user file may spread an inconsistency differently: equality only for consistent data
-                if not (c["cwd"] == "file" and c["kind"] != "consistent"):
+                if not (c["cwd"] == "file" and (c["kind"] != "consistent" or z_inconsistent(c))):
                     compare_results(c, info, binfo, what, viol)
         if c["drop"] != DEFAULT_DROP:
             b = dict(c)
@@ -835,10 +839,10 @@ def subset_masks(system, tier_quick, restrict_large):
 
     def near(m):
         return t[m] == d or any(t[m | 1 << k] == d for k in range(n) if not m >> k & 1)
-    if system == "trigonal7":
+    if system in ("trigonal6", "trigonal7"):
         masks = [m for m in range(1 << n) if (t[m] == d and pc(m) == d) or (t[m] < d and pc(m) == d - 1 and near(m))]
         return masks, f"sufficient with |S| = {d} + insufficient with |S| = {d - 1} one component short of sufficiency ({len(masks)} of {1 << n})", False
-    if system == "trigonal6":
+    if system == "tetragonal7":
         masks = [m for m in range(1 << n) if (t[m] == d and pc(m) <= d + 1) or (t[m] < d and pc(m) == d - 1 and near(m))]
         return masks, f"sufficient with |S| in {{{d},{d + 1}}} + insufficient with |S| = {d - 1} one component short of sufficiency ({len(masks)} of {1 << n})", False
     masks = [m for m in range(1 << n) if d - 1 <= pc(m) <= d + 1 and near(m)]
@@ -922,6 +926,8 @@ def explore(ctx):
                 c = {"what": "subsets", "system": s, "mask": m, "z": z}
                 if zc:
                     c["zc"] = zc
+                if quick:      # quick: the decisive value kinds only (thorough adds "small")
+                    c["kinds"] = [k for k in applicable_kinds(s, L.mask_to_subset(s, m)) if k != "small"]
                 cases.append(c)
     res = ctx.run(MOD, "run_case", cases, part="vanishing-components-x-flags-x-kinds", chunksize=4, transitions=0)
     nf = sum(r.get("nfill", 0) for r in res)
